@@ -364,6 +364,7 @@ static MIR_item_t mg_entry_func (mg_t *g, int k, MIR_item_t tab_data, MIR_item_t
       AP (MIR_new_insn (ctx, vp_chance (&g->r, 50) ? MIR_BO : MIR_BNO, MIR_new_label_op (ctx, ov)));
       AP (MIR_new_insn (ctx, MIR_ADD, RO (s), RO (s), IO (17)));
       AP (ov);
+      AP (MIR_new_insn (ctx, MIR_EXT32, RO (t), RO (t))); /* the upper half of a 32-bit insn result is undefined (MIR.md) */
       AP (MIR_new_insn (ctx, MIR_XOR, RO (s), RO (s), RO (t)));
       break; }
     default: /* call another entry (lower index only: no recursion) */
